@@ -7,6 +7,11 @@ BASELINE = "cd /repo && /venv/bin/python -m pytest -ra -q -p no:cacheprovider --
 
 # id -> (level category, engine, technique, level text, level note, design ref)
 CLAIMS = {
+    "C03": ("exploration", "Gen_Models,Trace_RoundTrip",
+            "TLC-enumerated object schemas and conforming instances; round trip through the EMITTED converter of each generated package; TLA+ monitor with the property's tolerance (RoundTripOK, KeysBijective)",
+            "every single-property schema over 20 property types x required/optional x 11 key styles and two-property schemas over 7 types x style pairs (TLC Gen_Models), each with every presence subset of optional properties x 2 values per leaf; each instance is structured and unstructured by the generated package's own converter with the generator blocked; Trace_RoundTrip.tla compares tagged JSON trees and checks the emitted Meta maps are inverse bijections",
+            "trusts TLC, the tagged-tree encoding, instants/uuid normalisation in harness/c03.py; schemas without `default`",
+            "DESIGN.md section 4 C03"),
     "C19": ("exploration", "Render,Trace_Render,Gen_Graphs",
             "TLC enumerates rendering / permutation variants of one abstract document (Render.tla); each variant generated and imported next to the reference; manifests and bytes compared; TLA+ monitor (Render!Clause)",
             "~45 documents (single-feature, a feature mix, schema graphs over plain and prefix-related names) x variants {JSON, YAML block, YAML flow, YAML bare numeric keys} x permutations of schemas / paths / properties; models->fields, clients->signatures and the operation set must be equal, pure re-renderings byte-identical",
